@@ -113,43 +113,63 @@ def run_terms(sh, which):
 
 
 def one_line_values(sh):
-    """pformat level of C06: a value whose unbounded rendering is one line of L columns prints as that line at every width = ribbon >= L."""
+    """pformat level of C06: a value whose unbounded rendering is one line of L columns prints as that line at every width >= L and ribbon_width >= L."""
+    from . import c07, c17
     quick = sh.tier == 'quick'
     M.install_warning_recorder()
-    for i in range(6000 if quick else 150000):
+    insts = list(c07.gen_instances(V.rng_for('c06inst', sh.seed), True))
+    n = 6000 if quick else 150000
+    for i in range(n):
         if not sh.mine(i):
             continue
         rng = V.rng_for('c06v', sh.seed, i)
-        recipe = V.rand_tree(rng, depth=rng.randint(1, 4), budget=[rng.randint(1, 12)])
-        value = V.build(recipe)
+        kind = i % 5
+        if kind == 3:
+            tname, value = insts[rng.randrange(len(insts))]
+            value = rng.choice([value, [value], {'k': value}])
+            recipe = None
+        elif kind == 4:
+            value = c17.gen_holder(rng)[0]
+            recipe = None
+        else:
+            recipe = V.rand_tree(rng, depth=rng.randint(1, 4), budget=[rng.randint(1, 12)])
+            value = V.build(recipe)
         try:
             line = prettyprinter.pformat(value, width=10 ** 6, ribbon_width=10 ** 6)
         except Exception:
             continue
         M.take_warnings()
         if '\n' in line:
-            if small_plain(value):
+            if recipe is not None and small_plain(value):
                 # no printer-forced break applies (no comment, no dict with more than 2 pairs, no long sequence):
                 # every group is unforced and everything fits into 10**6 columns
                 sh.violation('small-value-not-on-one-line', 'a value without any printer-forced break is not printed on one line at width 10**6: %r' % line[:300],
                              {'recipe': recipe, 'width': 10 ** 6, 'L': None})
             else:
-                sh.counters['values whose unbounded form is multi-line (printer-forced: dict > 2 pairs / long sequence)'] += 1
+                sh.counters['values whose unbounded form is multi-line (printer-forced: dict > 2 pairs / long sequence / comment)'] += 1
             continue
         Ln = len(line)
-        for w in (Ln, Ln + 1, Ln + 2, 2 * Ln, Ln + rng.randint(3, 50)):
-            if w < 1:
+        cfgs = [(Ln, Ln), (Ln + 1, Ln + 1), (Ln + 2, Ln), (2 * Ln, Ln), (Ln, 2 * Ln + 5), (Ln + rng.randint(3, 50), Ln + rng.randint(0, 50)),
+                (max(Ln, 79), max(Ln, 71)), (Ln + rng.randint(100, 400), Ln)]
+        for (w, r) in cfgs:
+            if w < 1 or r < 1:
                 continue
-            got = prettyprinter.pformat(value, width=w, ribbon_width=w)
+            cfg = {'width': w, 'ribbon_width': r}
+            if rng.random() < 0.3:
+                cfg['indent'] = rng.choice([1, 2, 8])
+            got = prettyprinter.pformat(value, **cfg)
             M.take_warnings()
-            sh.case(('value', repr(recipe), w), nontrivial=Ln > 4)
+            sh.case(('value', i, w, r), nontrivial=Ln > 4)
             if got != line:
-                sh.violation('one-line-value-broken', 'value with one-line form of %d columns is not printed as that line at width=ribbon=%d: %r' % (Ln, w, got[:300]),
-                             {'recipe': recipe, 'width': w, 'L': Ln})
+                sh.violation('one-line-value-broken', 'value with one-line form of %d columns is not printed as that line at width=%d ribbon_width=%d: %r' % (Ln, w, r, got[:300]),
+                             {'recipe': recipe, 'i': i, 'seed': sh.seed, 'width': w, 'ribbon_width': r, 'cfg': cfg, 'L': Ln})
             else:
-                sh.counters['one-line values verified at width >= L'] += 1
-                if w == Ln:
+                sh.counters['one-line values verified at width, ribbon >= L'] += 1
+                if w == Ln or r == Ln:
                     sh.counters['one-line values verified at exactly L'] += 1
+                if w != r:
+                    sh.counters['one-line values verified with ribbon_width != width'] += 1
+        sh.see('one-line value kinds', ['builtin', 'builtin', 'builtin', 'stdlib', 'pretty_call'][kind])
 
 
 def small_plain(v):
@@ -165,10 +185,13 @@ def replay_term(which, wit):
     from ..runner import Shard
     sh = Shard('replay', 0, 0, 1)
     c = wit['case']
+    if 'recipe' in c and c['recipe'] is None:
+        print('non-recipe value (stdlib / pretty_call), index', c.get('i'), 'seed', c.get('seed'), c)
+        return False
     if 'recipe' in c:
         value = V.build(c['recipe'])
         line = prettyprinter.pformat(value, width=10 ** 6, ribbon_width=10 ** 6)
-        got = prettyprinter.pformat(value, width=c['width'], ribbon_width=c['width'])
+        got = prettyprinter.pformat(value, **(c.get('cfg') or {'width': c['width'], 'ribbon_width': c['width']}))
         if c.get('L') is None:
             ok = '\n' not in line or not small_plain(value)
             print('unbounded form:\n' + line)
